@@ -84,7 +84,7 @@ class World:
 def build(env, p):
     from frappy.core import Readable, Parameter, FloatRange, Property
     from frappy.rwhandler import nopoll
-    from frappy.errors import HardwareError, CommunicationFailedError, SilentCommunicationFailedError
+    from frappy.errors import HardwareError, CommunicationFailedError, SilentCommunicationFailedError, TimeoutSECoPError
     import frappy.modulebase as mb
     w = World()
     w.env = env
@@ -104,10 +104,10 @@ def build(env, p):
     w.nfail = 0
     w.comm_failed_at = []
     if p.get('dopoll_fail'):
-        w.dopoll_kind = ['secop', 'silent', 'comm', 'other'][env.choice('dopollkind', 4)]
+        w.dopoll_kind = ['secop', 'silent', 'comm', 'other', 'timeout'][env.choice('dopollkind', 5)]
     if p.get('persistent'):
         w.persistent_name = ['value', 'status', 'p1'][env.choice('failing', 3)]
-        w.persistent_kind = ['secop', 'silent', 'other', 'comm'][env.choice('failkind', 4)]
+        w.persistent_kind = ['secop', 'silent', 'other', 'comm', 'timeout'][env.choice('failkind', 5)]
 
     class SilentHW(HardwareError):
         silent = True
@@ -134,6 +134,8 @@ def build(env, p):
             raise SilentCommunicationFailedError('no reply (attempt %d)' % len(w.comm_failed_at))
         if kind == 'other':
             raise ValueError('bug')
+        if kind == 'timeout':
+            raise TimeoutSECoPError('no answer')
         return 1.0
 
     class Drv(Readable):
@@ -155,6 +157,9 @@ def build(env, p):
         def read_p2(self):
             return work(self, 'p2')
 
+        if p.get('nopoll_value'):
+            read_value = nopoll(read_value)      # the main value marked as not polled
+
         def doPoll(self):
             w.log.append(('doPoll', self.name, w.clock.now))
             if len([e for e in w.log if e[0] == 'doPoll']) > p.get('maxpolls', 8):
@@ -171,6 +176,8 @@ def build(env, p):
                         raise SilentHW('direct')
                     if kind == 'comm':
                         raise CommunicationFailedError('direct')
+                    if kind == 'timeout':
+                        raise TimeoutSECoPError('direct')
                     raise ValueError('direct')
             super().doPoll()
 
@@ -210,6 +217,8 @@ def cases(tier):
                                                                              'change': None, 'nsym': 0, 'nfailsym': 1, 'concrete_t0': True, 'maxpolls': 60}})
     out.append({'fn': 'run_poll', 'id': 'different-slow-intervals/owner-slow', 'params': {'interval': 1, 'slow': 60, 'slow2': 2, 'nmod': 2, 'K': 14,
                                                                                         'change': None, 'nsym': 0, 'nfailsym': 1, 'concrete_t0': True, 'maxpolls': 60}})
+    out.append({'fn': 'run_poll', 'id': 'nopoll-on-value', 'params': {'interval': 1, 'slow': 2, 'nmod': 1, 'K': 4, 'change': None,
+                                                                    'nsym': 0, 'nfailsym': 0, 'concrete_t0': True, 'nopoll_value': True}})
     out.append({'fn': 'run_poll', 'id': 'persistent-failure', 'params': {'interval': 1, 'slow': 2, 'nmod': 2, 'K': 12, 'change': None,
                                                                        'nsym': 0, 'nfailsym': 0, 'persistent': True, 'maxpolls': 60}})
     out.append({'fn': 'run_poll', 'id': 'change-fast2', 'params': {'interval': 5, 'slow': 15, 'nmod': 1, 'nsym': 1, 'nfailsym': 0,
@@ -276,7 +285,8 @@ def run_poll(env, p):
     funcs = [e for e in w.log if e[0] == 'func']
     polls = [e for e in w.log if e[0] == 'doPoll']
     # never polled: p2 (nopoll), p3 (no read method)
-    env.check(not [e for e in funcs if e[2] in ('p2', 'p3')], K_ + '/unpolled-parameter-read')
+    unpolled = ('p2', 'p3', 'value') if p.get('nopoll_value') else ('p2', 'p3')
+    env.check(not [e for e in funcs if e[2] in unpolled], K_ + '/unpolled-parameter-read', sorted({e[2] for e in funcs if e[2] in unpolled}))
     if any(e[5] != 'ok' for e in funcs):
         env.note('failed-read-survived')
     end = w.clock.now
@@ -288,7 +298,7 @@ def run_poll(env, p):
         first = [e for e in funcs if e[1] == m.name and e[3] < w.started[0]]
         if not [t for t in w.comm_failed_at if t < w.started[0]]:
             # (a communication failure at start-up ends the first round by design)
-            env.check({e[2] for e in first} == {'value', 'status', 'p1'}, K_ + '/initial-reads', sorted({e[2] for e in first}))
+            env.check({e[2] for e in first} == {'value', 'status', 'p1'} - set(unpolled), K_ + '/initial-reads', sorted({e[2] for e in first}))
         if mp:
             env.note('polled')
         # main poll: started again no later than interval + the work done in between (one sweep) + wake-up slack
